@@ -14,8 +14,9 @@
 // and, for restore / back / fork, two facts: `swap` — the function installs another token list between
 // the save and the restore (a nested parse of a DIFFERENT text, e.g. an interpolated fragment: nothing is
 // parsed twice); `nested` — between the save and the write the function calls (lexically) something from
-// which parseStatement is reachable in the package's call graph by name, i.e. the tokens that are
-// rewound over may have been parsed by a recursive parse, and will be parsed again. `guard` names the
+// which parseStatement is reachable in the package's call graph by name (a write inside a loop: anywhere
+// in the loop body), i.e. the tokens that are rewound over may have been parsed by a recursive parse, and
+// will be parsed again. `guard` names the
 // calls in the condition of the innermost `if` around the save.
 package main
 
@@ -227,6 +228,28 @@ func positionWritesIn(fset *token.FileSet, rel string, fd *ast.FuncDecl, reaches
 		}
 		return false
 	}
+	// a write inside a loop is also reached after everything else in the loop body
+	nestedInLoopAround := func(pos token.Pos) bool {
+		found := false
+		ast.Inspect(fd.Body, func(n ast.Node) bool {
+			var body *ast.BlockStmt
+			switch l := n.(type) {
+			case *ast.ForStmt:
+				body = l.Body
+			case *ast.RangeStmt:
+				body = l.Body
+			}
+			if body != nil && body.Pos() <= pos && pos < body.End() {
+				for _, c := range cs {
+					if c.pos >= body.Pos() && c.pos < body.End() && reaches[c.name] {
+						found = true
+					}
+				}
+			}
+			return true
+		})
+		return found
+	}
 	swapBetween := func(from, to token.Pos) bool {
 		for _, p := range tokenWrites {
 			if p > from && p < to {
@@ -267,7 +290,7 @@ func positionWritesIn(fset *token.FileSet, rel string, fd *ast.FuncDecl, reaches
 		w := posWrite{file: rel, fn: fn, kind: kind, line: fset.Position(pos).Line}
 		if kind == "restore" || kind == "back" || kind == "fork" {
 			w.swap = swapBetween(from, pos)
-			w.nested = nestedBetween(from, pos)
+			w.nested = nestedBetween(from, pos) || nestedInLoopAround(pos)
 			w.guard = guardOf(from)
 			if from == fd.Body.Pos() {
 				w.guard = guardOf(pos)
